@@ -294,8 +294,15 @@ class AstToSqlVisitor(visitor.NodeVisitor):
             if suffix:
                 res = res + f" || '{suffix}'"
         else:
-            res = str(arg.val).replace("%", "%%").replace("_", "__")  # type: ignore
-            res = "'" + prefix + res + suffix + "'"
+            val = str(arg.val)  # type: ignore
+            # Escape the LIKE wildcards and the escape character itself:
+            escaped = val.replace("\\", "\\\\").replace("%", "\\%").replace("_", "\\_")
+            needs_escape = escaped != val
+            # Replace single quotes with double single-quotes acc SQL standard:
+            escaped = escaped.replace("'", "''")
+            res = "'" + prefix + escaped + suffix + "'"
+            if needs_escape:
+                res += " ESCAPE '\\'"
         return res
 
     def sqlfunc_contains(self, *args: ast._Node) -> str:
